@@ -9,7 +9,7 @@ pub open spec fn split_seq(s: Seq<u8>, sep: u8) -> Seq<Seq<u8>>
     decreases s.len()
 {
     let k = find_sep(s, sep, 0);
-    if k >= s.len() { seq![s] } else { seq![s.subrange(0, k)] + split_seq(s.subrange(k + 1, s.len() as int), sep) }
+    if 0 <= k < s.len() { seq![s.subrange(0, k)] + split_seq(s.subrange(k + 1, s.len() as int), sep) } else { seq![s] }
 }
 
 #[verifier::external_body]
